@@ -23,7 +23,7 @@ def plan(ctx):
         return dict(flavors=["oid/oid", "path/oidf"],
                     fams=[("dis2", "std", 2, None, 2500), ("dis4", "std", 4, "sim", 500)])
     return dict(flavors=["oid/oid", "path/oidf", "oidf/path", "path/path"],
-                fams=[("dis2", "std", 2, None, None), ("dis2two", "two", 2, None, None), ("dis3", "std", 3, None, 50000),
+                fams=[("dis2", "std", 2, None, None), ("dis2two", "two", 2, None, None), ("dis3", "std", 3, None, 12000),
                       ("dis5", "std", 5, "sim", 5000)])
 
 
@@ -38,7 +38,7 @@ def run(ctx):
     exhaustive = True
     for name, uni, nops, mode, limit in p["fams"]:
         if mode == "sim":
-            cases = sc.generate(ctx, name, [1, 2], nops, GAPS, uni, filt="disjoint", simulate=(40, ctx.seed + 5))
+            cases = sc.generate(ctx, name, [1, 2], nops, GAPS, uni, filt="cleandisjoint", simulate=(40, ctx.seed + 5))
             exhaustive = False
         else:
             cases = sc.generate(ctx, name, [1, 2], nops, GAPS, uni, filt="disjoint")
